@@ -199,6 +199,91 @@ def san_site(r):
     return "%s@%s" % (m.group(1), m.group(3)) if m else "?"
 
 
+ZOO_SCAFFOLD = ("const int N = 3; typedef int[0,N-1] id_t; typedef struct { int a; } rec_t; int i, j, arr[N]; clock x, y; chan c0; broadcast chan cb[N]; bool b0; dynamic Dyn(int p);"
+                " int f(int a) { return a; } int g(int a) { return a; } typedef int[0,1] lt;")
+
+
+def zoo_part(c, add, gen, scaffold_xml):
+    """RuleCover.tla: which productions of the extracted grammar the zoo (lib/zoo.py) reduces by; every zoo text is then run through the
+    document builder + type checker, the pretty printer and (queries) the property builders under the sanitizers"""
+    import zoo, xtalex
+    tabs = json.load(open(os.path.join(gen, "lr_tables.json")))
+    lexed = json.load(open(os.path.join(gen, "lexemes.json")))
+    sc = {s: xtalex.Scanner(os.path.join(gen, "lexemes.json"), s) for s in ("new", "old", "property")}
+    corpus = zoo.corpus()
+    rich_xml = xmlgen.render_xml({"decl": ZOO_SCAFFOLD, "templates": [{"name": "P", "decl": "clock w; int l;", "locations": [{"id": "id0", "name": "A"}, {"id": "id1", "name": "B"}], "init": "id0",
+                                                                      "edges": [{"src": "id0", "dst": "id1"}]},
+                                                                     {"name": "U", "locations": [{"id": "id2", "name": "l"}], "init": "id2", "edges": []}], "system": "system P, U;"})
+    docs = []
+    for d in corpus:
+        docs.append({"id": d["id"], "start": d["start"], "toks": sc[d["syntax"]].scan(d["text"], zoo.TYPES)})
+    path = os.path.join(c.run_dir, "zoodocs.ndjson")
+    vf.write_ndjson(path, docs)
+    r = vf.run_tlc("RuleCover", "XmlReader.cfg", c.run_dir, env={"LR_TABLES": os.path.join(gen, "lr_tables.json"), "RC_DOCS": path}, timeout=1500, xmx="16g", workers=1, keep_out=False)
+    c.add_tlc("RuleCover", r, "the productions each zoo input reduces by, on the extracted automaton")
+    used = set()
+    spec = {}
+    for e in r.emitted:
+        used |= set(e["used"])
+        spec[e["id"]] = e
+    rules = tabs["rules"]
+    have_lexeme = set(lexed["lit"]) | {k["tok"] for k in lexed["kw"].values()} | {"T_ID", "T_TYPENAME", "T_NAT", "T_FLOATING", "T_CHARARR", "T_POS_NEG_MAX", "T_ERROR", "error", "$end", "'\\n'"}
+    starts = set(tabs["entry"])
+    nts = {x["lhs"] for x in rules}
+    dead = {k for k, x in enumerate(rules) if any(s not in nts and s not in have_lexeme and s not in starts for s in x["rhs"])}     # a terminal no text produces (T_SWITCH, T_CASE, T_BREAK ...)
+    changed = True
+    while changed:          # mid-rule actions and list rules that only occur inside dead productions
+        changed = False
+        for k, x in enumerate(rules):
+            if k not in dead and k > 0:
+                users = [q for q, y in enumerate(rules) if x["lhs"] in y["rhs"]]
+                if users and all(q in dead for q in users) and all(q in dead or q == k for q, y in enumerate(rules) if y["lhs"] == x["lhs"]):
+                    dead.add(k); changed = True
+    live = [k for k in range(1, len(rules)) if k not in dead]
+    unc = [k for k in live if k not in used]
+    c.cov["grammar_productions"] = len(rules) - 1
+    c.cov["grammar_productions_unreachable_from_text"] = len(dead)
+    c.cov["zoo_productions_covered"] = len(live) - len(unc)
+    c.cov["zoo_productions_uncovered"] = ["%d %s -> %s" % (k, rules[k]["lhs"], " ".join(rules[k]["rhs"])) for k in unc]
+    if len(unc) > 0.08 * len(live):
+        print("NOTE property=C01 the zoo reaches %d of %d productions that a text can reach; extend lib/zoo.py (uncovered ones are listed in the evidence)" % (len(live) - len(unc), len(live)))
+    # every zoo text through the back ends (the job loop below decides crashes), and once more through the recorder: LR.tla's callbacks = the real parser's
+    recjobs = []
+    for d in corpus:
+        rep = {"zoo": d["id"], "start": d["start"], "text": d["text"][:400]}
+        if d["job"]["entry"] == "property":
+            # against a model that declares what the queries mention, and against one that declares nothing of it (every name unknown)
+            for sname, sx in (("rich", rich_xml), ("bare", scaffold_xml)):
+                add("zoo", d["id"], {"entry": "xml_buffer", "text": sx, "queries": [d["text"]], "query_builder": "tiga", "dump": False}, dict(rep, backend="tiga", scaffold=sname))
+                add("zoo", d["id"], {"entry": "xml_buffer", "text": sx, "queries": [d["text"]], "query_builder": "property", "dump": False}, dict(rep, backend="property", scaffold=sname))
+            add("zoo", d["id"], {"builder": "pretty", "entry": "property", "text": d["text"], "dump": False}, dict(rep, backend="pretty"))
+        else:
+            j = dict(d["job"], text=d["text"])
+            if j["entry"] == "part" and j["part"] != "S_DECLARATION":
+                add("zoo", d["id"], dict(j), dict(rep, backend="document", scaffold="none"))          # every identifier unknown
+                j["scaffold"] = ZOO_SCAFFOLD
+            add("zoo", d["id"], dict(j), dict(rep, backend="document"))
+            add("zoo", d["id"], dict(j, builder="pretty", dump=False), dict(rep, backend="pretty"))
+            if j["entry"] in ("xta", "part") and "scaffold" not in j:
+                recjobs.append(dict(j, id=d["id"], positions=True, analysis=False, walk=False, timeout=60, builtins=False))
+    vf.build_harness("record", "plain")
+    rres = vf.run_jobs(recjobs, c.run_dir, variant="plain", harness="record", name="zoorec")
+    nagree = 0
+    for j in recjobs:
+        evs = rres[j["id"]].get("events", [])
+        starts_ = [i for i, ev in enumerate(evs) if ev["cb"] == "add_position" and ev["a"][1] == 0 and ev["a"][2] == 1]
+        real = [ev["cb"] for ev in evs[(starts_[-1] if starts_ else 0):] if ev["cb"] not in ("add_position", "set_position", "is_type", "handle_warning") and "d" not in ev]
+        want = [x for x in spec[j["id"]]["cbs"] if x not in ("handle_warning",)]
+        real_n = [x for x in real if x != "handle_error"]
+        want_n = [x for x in want if x != "handle_error"]          # the lexer reports unknown characters itself; the grammar's own reports are compared by position in C06
+        if real_n != want_n:
+            k = next((i for i, (a, b) in enumerate(zip(real_n, want_n)) if a != b), min(len(real_n), len(want_n)))
+            raise vf.MachineryError("LR.tla and the real parser disagree on zoo input %s at callback %d: real %s, spec %s" % (j["id"], k, real_n[k:k + 3], want_n[k:k + 3]))
+        nagree += len(real_n)
+    c.cov["zoo_inputs"] = len(corpus)
+    c.cov["zoo_callbacks_agreeing_with_real_parser"] = nagree
+
+
 def run(tier):
     c = vf.Check("C01", tier)
     quick = tier == "quick"
@@ -313,6 +398,8 @@ def run(tier):
                 '<init ref="id0"/></template><system>system T;</system></nta>') % levels
     for L in (5, 6, 7):
         add("entity", "levels", {"entry": "xml_buffer", "text": entity_doc(L), "timeout": 120}, {"levels": L, "bytes": len(entity_doc(L)), "backend": "document"})
+    # ---- 5c. production zoo: inputs that together reduce by (nearly) every production of the grammar, through every back end
+    zoo_part(c, add, gen, scaffold_xml)
     # ---- run
     # scaling probes run against the plain build: sanitizer frames are an order of magnitude larger than the library's own
     sjobs = [j for j in jobs if meta[j["id"]][0] in ("scale", "entity")]
